@@ -478,6 +478,16 @@ impl Model {
 
     /// a PUBLISH actually requested for sending: alias rules (C13) and flow accounting
     fn on_publish_sent(&mut self, pkt: &Pkt, intent: Option<&Pkt>, s: &mut Sink, how: &str) {
+        // S13: the PUBLISH requested for sending is the one the application handed over - the library may only exchange the
+        // topic for an alias or add one (automatic mapping / replacement); QoS, RETAIN, DUP, id, payload and every other
+        // property go out as given, in order
+        if let (Pkt::Publish { qos: q, retain: r, dup: d, id: i, payload: pl, props: ps, .. }, Some(Pkt::Publish { qos: aq, retain: ar, dup: ad, id: ai, payload: apl, props: aps, .. })) = (pkt, intent) {
+            s.hit("S13-sent-publish-is-the-accepted-one");
+            let strip = |v: &Vec<Prop>| v.iter().filter(|x| x.id != P_TA).cloned().collect::<Vec<Prop>>();
+            if q != aq || r != ar || d != ad || i != ai || pl != apl || strip(ps) != strip(aps) {
+                s.fail("C06", "S13-sent-publish-is-the-accepted-one", format!("how={}", how), format!("send({}) was passed on as {}: QoS, RETAIN, DUP, id, payload or the other properties differ", intent.unwrap().short(), pkt.short()));
+            }
+        }
         let Pkt::Publish { ver, topic, props, id, qos, .. } = pkt else { return };
         if *qos > 0 {
             if let Some(i) = id {
